@@ -246,6 +246,25 @@ pub fn check_step(m: &Machine, op: &Op, step: &Step, any_removal_so_far: bool) -
                 ),
             );
             sc.diverged = true;
+        } else {
+            // same structure: every text selector leaf is also reported with the alignment it was built with
+            // (leaves that select the text of an annotation are C05's listed finding about range compression)
+            let texts = |s: &MSel| -> Vec<String> {
+                let mut v: Vec<String> = s.leaves().into_iter().filter(|l| matches!(l, MSel::Text { .. })).map(|l| format!("{:?}", l)).collect();
+                if !matches!(s, MSel::Directional(_)) {
+                    v.sort();
+                }
+                v
+            };
+            let (got, want) = (texts(&a.target), texts(&ma.target));
+            if got != want {
+                sc.add(
+                    Fam::Index,
+                    "forward.alignment",
+                    format!("{}|{}", ma.target.kind(), if a.ranged { "ranged" } else { "plain" }),
+                    format!("annotation {} reports the text selectors {:?}, it was built with {:?}", a.handle, got, want),
+                );
+            }
         }
         if a.raw_data != ma.data {
             let (fam, facet) = if removal {
